@@ -72,6 +72,8 @@ class Sink:
         n = self._per_key.get(key, 0)
         self._per_key[key] = n + 1
         if n < 3:
+            if isinstance(replay, dict):
+                replay = dict(replay, clause=clause)
             self.fails.append(dict(function=function, clause=clause, input=input, expected=_j(expected),
                                    observed=_j(observed), key=key, replay=replay))
 
@@ -82,7 +84,9 @@ class Sink:
             self.fail(function, clause, input, expected, observed, key, replay)
         return cond
 
-    def merge_into(self, ctx):
+    def merge_into(self, ctx, seen=None):
+        """seen: key -> number already forwarded; ctx keeps only 50 violations in all, so forward two per key."""
+        seen = {} if seen is None else seen
         for d, nt in self.cases:
             ctx.case(d, nt)
         for k, n in self.clauses.items():
@@ -90,7 +94,9 @@ class Sink:
         for k, n in self.counts.items():
             ctx.count(k, n)
         for f in self.fails:
-            ctx.fail(**f)
+            if seen.get(f["key"], 0) < 2:
+                seen[f["key"]] = seen.get(f["key"], 0) + 1
+                ctx.fail(**f)
 
 
 def _j(x):
@@ -792,8 +798,9 @@ def run(ctx):
             sinks = pool.map(_work, tasks, chunksize=1)
     else:
         sinks = [_work(t) for t in tasks]
+    seen = {}
     for s in sinks:
-        s.merge_into(ctx)
+        s.merge_into(ctx, seen)
     ctx.exhaustive_parts.append("all Hypergraphs on {0..n-1} with <=m hyperedges for (n, m) in %s, s in {1,2,3}" % (s_plan,))
     ctx.exhaustive_parts.append("all TemporalHypergraphs with <=3 timed hyperedges over %d labels x times {1,4}, three label "
                                 "alphabets" % t_n)
@@ -807,7 +814,8 @@ def replay(data):
     spec = data["spec"]
     _RUNNERS[spec["kind"]](sink, spec, only=data.get("function"))
     if sink.fails:
-        f = sink.fails[0]
+        same = [f for f in sink.fails if f["clause"] == data.get("clause")]
+        f = (same or sink.fails)[0]
         return False, "%s: clause '%s' is false on %s; expected %s, observed %s" % (
             f["function"], f["clause"], _j(f["input"]), f["expected"], f["observed"])
     if not sink.clauses:
